@@ -36,12 +36,13 @@ const (
 var stateNames = []string{"runnable", "waiting", "running", "blocked", "done"}
 
 type Task struct {
-	ID     int
-	Name   string
-	Parent int
-	IsBody bool // started by the program (future body), not by the harness
-	Steps  int64
-	User   interface{}
+	ID        int
+	Name      string
+	Parent    int
+	IsBody    bool // started by the program (future body), not by the harness
+	Steps     int64
+	LoopIters int64 // iterations of instrumented Go-level loops (auto.loop yields)
+	User      interface{}
 	// SpawnObj is the object handed to simhook.Spawn (the *Future whose body this task runs).
 	SpawnObj interface{}
 
@@ -502,6 +503,26 @@ func (s *Sim) Yield(point string, obj interface{}) {
 		if t.lockDepth > 0 {
 			t.lockDepth--
 		}
+	}
+	if strings.HasPrefix(point, "auto.loop:") {
+		// an iteration of a Go-level loop in the evaluator: it costs simulated time like an evaluation step
+		// and is shown to the step hook, so that a loop that never reaches the evaluation loop again is
+		// neither free nor invisible
+		t.LoopIters++
+		if s.OnStep != nil {
+			s.OnStep.OnStep(s, t, nil, nil, nil)
+		}
+		if t.LoopIters > 50*s.cfg.MaxSteps {
+			s.RequestAbort("runaway")
+		}
+		if s.cfg.StepCost > 0 && t.LoopIters%8 == 0 {
+			raceOff()
+			time.Sleep(s.cfg.StepCost)
+			synctest.Wait()
+			raceOn()
+		}
+		s.hookPoint(t, "auto.loop", false)
+		return
 	}
 	for _, rp := range s.RecPoints {
 		if rp == point {
